@@ -25,7 +25,7 @@ OVL=(-overlay "$OVLJSON")
 export VERIF_BUILD_OVERLAY="$OVLJSON"   # checks that build /repo binaries themselves (C17) use it too
 if [ "$ID" = "C11" ]; then
   # C11 runs inside testing/synctest bubbles and therefore is a test binary
-  if ! go1.26.8 test -tags verif "${OVL[@]}" -c -o "$BIN" ./checks/c11/ >/tmp/verifx-build.$$.log 2>&1; then
+  if ! go1.26.8 test -vet=off -tags verif "${OVL[@]}" -c -o "$BIN" ./checks/c11/ >/tmp/verifx-build.$$.log 2>&1; then
     echo "INFRA: harness build failed (not a verdict)"; cat /tmp/verifx-build.$$.log; rm -f /tmp/verifx-build.$$.log; exit 2
   fi
   rm -f /tmp/verifx-build.$$.log
